@@ -474,7 +474,12 @@ class PSBTView:
             raise PSBTError("Invalid input index")
         if len(values) != self.num_inputs:
             raise PSBTError("All spent amounts are required")
+        if len(script_pubkeys) != self.num_inputs:
+            raise PSBTError("All spent scripts are required")
         sh, anyonecanpay = SIGHASH.check(sighash)
+        if anyonecanpay and sh == SIGHASH.DEFAULT:
+            # 0x80 is not a hash type of BIP-341
+            raise PSBTError("Invalid SIGHASH type")
         h = hashes.tagged_hash_init("TapSighash", b"\x00")
         h.update(bytes([sighash]))
         h.update(self.tx_version.to_bytes(4, "little"))
